@@ -15,6 +15,7 @@ import TLX.Drv.Keylog
 import TLX.Drv.Options
 import TLX.Drv.Container
 import TLX.Drv.Reasm
+import TLX.Drv.QuicSession
 
 def main (args : List String) : IO UInt32 := do
   match args with
@@ -30,4 +31,5 @@ def main (args : List String) : IO UInt32 := do
   | ["container"] => TLX.Drv.Container.main; return 0
   | ["reasm"] => TLX.Drv.Reasm.main; return 0
   | ["reasm-legacy"] => TLX.Drv.Reasm.mainLegacy; return 0
+  | ["quicsession"] => TLX.Drv.QuicSession.main; return 0
   | _ => IO.eprintln "usage: tlxdriver <module>"; return 2
